@@ -338,7 +338,7 @@ brk("c17-unfix-shared-values", ["C17"], (C, "        SuitObject.reject_shared_va
 brk("c17-shared-guard-skips-strings", ["C17"], (C, "            elif isinstance(item, (bytes, str)) and len(item) > 1:\n                children = []\n", ""))
 brk("c17-shared-guard-skips-maps", ["C17"], (C, "            elif isinstance(item, Mapping):\n                children = [*item.keys(), *item.values()]\n", ""))
 brk("c17-shared-guard-wrong-error", ["C17"], (C, '                raise ValueError("CBOR shared values are not supported!")', '                raise RuntimeError("CBOR shared values are not supported!")'))
-brk("c17-validate-after-loads", ["C17"], (C, "        SuitObject.validate_cbor(cbstr)\n        try:\n            data = cbor2.loads(cbstr)\n", "        try:\n            data = cbor2.loads(cbstr)\n            SuitObject.validate_cbor(cbstr)\n"))
+brk("c17-validate-after-loads", ["C17"], (C, "        SuitObject.validate_cbor(cbstr)\n        try:\n            with io.BytesIO(cbstr) as stream:\n                data = cbor2.load(stream)\n", "        try:\n            with io.BytesIO(cbstr) as stream:\n                data = cbor2.load(stream)\n                SuitObject.validate_cbor(cbstr)\n"))
 brk("c17-length-check-inverted", ["C17"], (C, "        if requested_memory_len and requested_memory_len > len(cbstr):", "        if requested_memory_len and requested_memory_len < len(cbstr):"))
 brk("c17-empty-check-dropped", ["C17"], (C, "        if len(cbstr) < 1:\n            raise ValueError(\"The cbstr parsed object is empty\")\n", "        if len(cbstr) < 0:\n            raise ValueError(\"The cbstr parsed object is empty\")\n"))
 ben("c17-validate-with-marker", ["C17"], (C, "        # Ensure that cbor2.loads() will not consume all the available memory\n        SuitObject.validate_cbor(cbstr)\n", "        size = len(cbstr)\n        logger.debug(size)\n        SuitObject.validate_cbor(cbstr)\n"))
